@@ -4,7 +4,7 @@
 From stdpp Require Import gmap list.
 From RecordUpdate Require Import RecordSet.
 Import RecordSetNotations.
-From Aldrin Require Import gen.BrokerConsts Broker.Model Broker.Run Broker.ChannelProofs Broker.Inv
+From Aldrin Require Import gen.BrokerConsts Broker.Model Broker.Run Broker.ChannelProofs Broker.Inv Broker.SerialAlloc
   Broker.InvProofsBase Broker.InvProofsCalls Broker.InvProofsRemove Broker.InvProofsRemoveSvc
   Broker.InvProofsShutdown Broker.InvProofsHandle1 Broker.InvProofsHandle2.
 From Coq Require Import Lia.
@@ -28,22 +28,26 @@ Proof.
 Qed.
 
 (* ---------------------------------------------------------------- call_impl *)
+(* what [legal] says about the broker-side serial: fewer than 2^32 calls are pending and the
+   serial observed on the implementation's trace, if any, is the allocator's choice *)
+Definition bserial_ok (s : state) (bserial : option N) : Prop :=
+  N.of_nat (size (calls s)) < 4294967296 ∧
+  match bserial with Some b => ∃ nxt, sm_choice s = Some (b, nxt) | None => True end.
+
 Lemma pick_serial_ok s bserial :
-  calls_bound (calls s) (next s) →
-  match bserial with Some b => calls s !! b = None ∧ b <= u32_max | None => True end →
-  ∃ b nxt, pick_serial s bserial = Some (b, nxt) ∧ calls s !! b = None ∧ next s <= nxt ∧
-           b < 4294967296 + nxt.
+  calls_bound (calls s) (next s) → bserial_ok s bserial →
+  ∃ b nxt, pick_serial s bserial = Some (b, nxt) ∧ calls s !! b = None ∧ nxt < 4294967296 ∧
+           b < 4294967296.
 Proof.
-  intros Hcb Hl. unfold pick_serial. destruct bserial as [b|].
-  - destruct Hl as [Hn Hb]. rewrite bool_decide_eq_false_2 by (rewrite Hn; by intros [? ?]).
-    exists b, (next s). split; [done|]. split; [done|]. split; [lia|]. unfold u32_max in Hb. lia.
-  - exists (4294967296 + next s), (next s + 1). split; [done|]. split; [|lia].
-    apply eq_None_not_Some. intros Hs. apply Hcb in Hs. lia.
+  intros [Hn Hcb] [Hsz Hl]. destruct (sm_choice_is_Some s Hn Hsz) as [[b nxt] Hc].
+  destruct (sm_choice_Some s b nxt Hn Hc) as (Hv & Hb & _ & Hnx & _).
+  exists b, nxt. split; [|done]. apply pick_serial_Some. split; [done|].
+  destruct bserial as [b'|]; [|by left]. right. destruct Hl as [nxt' Hl]. congruence.
 Qed.
 
 Lemma h_call_impl m c cs serial sc fn ver v bserial :
   MI m → w_rm_call (mw m) = [] → conns (ms m) !! c = Some cs →
-  match bserial with Some b => calls (ms m) !! b = None ∧ b <= u32_max | None => True end →
+  bserial_ok (ms m) bserial →
   good (call_impl m c serial sc fn ver v bserial).
 Proof.
   intros H Hq0 Hc Hl. unfold call_impl.
@@ -53,7 +57,7 @@ Proof.
   destruct (pick_serial_ok (ms m) bserial (iv_cb _ _ _ _ _ H) Hl) as (b & nxt & -> & Hb & Hn & Hbn).
   set (m0 := m <| ms; next := nxt |>).
   assert (MI m0) as H0.
-  { unfold MI, MX, MO in *. subst m0. mx_frame H. eapply calls_bound_mono; [done|exact Hn|done]. }
+  { unfold MI, MX, MO in *. subst m0. mx_frame H. split; [exact Hn|]. apply (proj2 Hcb). }
   destruct (bool_decide_reflect (is_Some (cs_calls cs !! serial))) as [|Hns]; [done|].
   apply eq_None_not_Some in Hns. subst m0. cbn [ms svcs conns set]. cbn. rewrite Hk.
   pose proof (iv_oo _ _ _ _ _ H _ _ Ho) as Hoc. apply elem_of_dom in Hoc as [ocs Hoc]. rewrite Hoc.
@@ -84,7 +88,7 @@ Proof.
       + destruct (Hsc _ _ _ Hk' Hin) as (cl' & Hb' & Hs'). exists cl'. split; [|done].
         rewrite lookup_insert_ne; [done|]. intros <-. congruence.
     - (* calls_bound *)
-      intros b' Hs. apply lookup_insert_is_Some in Hs as [<-|[_ Hs]]; [done|]. apply Hcb in Hs. lia.
+      split; [exact Hn|]. intros b' Hs. apply lookup_insert_is_Some in Hs as [<-|[_ Hs]]; [done|]. by apply (proj2 Hcb).
     - (* call_entry *)
       intros b' cl' cs'. rewrite lookup_insert_Some. intros [[<- <-]|[Hne Hb']] Ha' Hc'.
       + cbn in Hc'. rewrite lookup_insert in Hc'. inversion Hc'; subst cs'. cbn. rewrite lookup_insert. eauto.
@@ -202,9 +206,6 @@ Definition msg_caps_ok (x : msg) : Prop :=
   | CreateChannel _ (CReceiver cap) | ClaimChannelEnd _ _ (CReceiver cap) | AddChannelCapacity _ cap => cap <= u32_max
   | _ => True
   end.
-
-Definition bserial_ok (s : state) (bserial : option N) : Prop :=
-  match bserial with Some b => calls s !! b = None ∧ b <= u32_max | None => True end.
 
 Theorem handle_good m c x fresh bserial :
   MI m → w_rm_call (mw m) = [] → fresh ∉ cookies_in_use (ms m) → bserial_ok (ms m) bserial →
